@@ -49,11 +49,15 @@ line whose stripped text equals the last declared dependency (first occurrence: 
 that line's leading whitespace -/
 def leadingWs (s : String) : String := String.ofList (s.toList.takeWhile Char.isWhitespace)
 
+/-- a line with its terminator -/
+def terminate (s : String) : String := if s.endsWith "\n" then s else s ++ "\n"
+
 def cfgBuildNewline (lines : List String) (lastDep : String) (reqs : List String) : Option (List String) :=
   match (lines.map stripS).idxOf? lastDep with
   | none => none
   | some idx =>
     let ws := leadingWs (lines.getD idx "")
-    some (lines.take (idx + 1) ++ reqs.map (fun r => ws ++ r ++ "\n") ++ lines.drop (idx + 1))
+    -- the last dependency may be the last line of a file without a final newline: it is terminated first
+    some (lines.take idx ++ [terminate (lines.getD idx "")] ++ reqs.map (fun r => ws ++ r ++ "\n") ++ lines.drop (idx + 1))
 
 end CM.Deps
